@@ -216,8 +216,12 @@ class JSONPathEnvironment:
                         token=token,
                     )
             elif typ == ExpressionType.LOGICAL:
-                if not isinstance(
-                    arg, (FilterQuery, LogicalExpression, ComparisonExpression)
+                if not (
+                    isinstance(
+                        arg, (FilterQuery, LogicalExpression, ComparisonExpression)
+                    )
+                    or self._function_return_type(arg)
+                    in (ExpressionType.LOGICAL, ExpressionType.NODES)
                 ):
                     raise JSONPathTypeError(
                         f"{token.value}() argument {idx} must be of LogicalType",
